@@ -189,8 +189,18 @@ class DimwiseSim:
                                                             min_evaluations=min_evaluations, print_output=False,
                                                             recalculate_frequently=bool(rf), reevaluate_at_end=reevaluate_at_end, **kw)
             return self.last_ret
+        except AssertionError as e:
+            self._resolution(e)
+            raise
         finally:
             _Obs.cur = None
+
+    @staticmethod
+    def _resolution(e):
+        # RefinementObjectSingleDimension.refine refuses (assertion with message) to split an interval whose midpoint is
+        # not strictly inside it: the history zoomed in to floating-point resolution - a degenerate input, not a violation
+        if "does not hold" in str(e):
+            raise Excluded("interval at floating-point resolution")
 
     def error_operator(self):
         return self.err
@@ -201,6 +211,9 @@ class DimwiseSim:
         try:
             self.last_ret = self.sa.continue_adaptive_refinement(tol=tol, max_evaluations=max_evaluations, min_evaluations=min_evaluations)
             return self.last_ret
+        except AssertionError as e:
+            self._resolution(e)
+            raise
         finally:
             _Obs.cur = None
 
